@@ -3,17 +3,16 @@
 extern crate alloc;
 
 pub mod model;
+#[cfg(not(kani))]
+pub mod nk;
 pub mod shim;
 pub mod text;
-#[cfg(kani)]
+// the harness bodies also compile natively (against `nk`, the stand-in for the kani API) so that a
+// solver counterexample can be replayed without Kani: plain run, release run and Miri
 pub mod st;
-#[cfg(kani)]
 pub mod ops;
-#[cfg(kani)]
 pub mod h;
-#[cfg(kani)]
 pub mod h2;
-#[cfg(kani)]
 pub mod h3;
 #[cfg(all(kani, feature = "ls_all"))]
 pub mod h4;
